@@ -1232,8 +1232,30 @@ class Normaliser:
             while changed:
                 changed = False
                 for i, st in enumerate(body):
+                    # if C: r = E else: r = None   ->   r = E if C else None        (what an inlined helper with an early `return None` leaves)
+                    if isinstance(st, ast.If) and len(st.body) == 1 and len(st.orelse) == 1 and all(
+                            isinstance(b_, ast.Assign) and len(b_.targets) == 1 and isinstance(b_.targets[0], ast.Name) for b_ in (st.body[0], st.orelse[0])) \
+                            and st.body[0].targets[0].id == st.orelse[0].targets[0].id and '__i' in st.body[0].targets[0].id:
+                        a_, b_ = st.body[0].value, st.orelse[0].value
+                        none_a = isinstance(a_, ast.Constant) and a_.value is None
+                        none_b = isinstance(b_, ast.Constant) and b_.value is None
+                        if none_a != none_b:
+                            test_ = st.test if none_b else ast.UnaryOp(op=ast.Not(), operand=st.test)
+                            body[i] = ast.copy_location(ast.Assign(targets=[ast.Name(id=st.body[0].targets[0].id, ctx=ast.Store())],
+                                                                   value=ast.IfExp(test=test_, body=a_ if none_b else b_, orelse=ast.Constant(value=None))), st)
+                            changed = True
+                            break
+                    # r = <option>; x = r   (r an inlining temporary not used again)   ->   x = <option>
+                    if isinstance(st, ast.Assign) and len(st.targets) == 1 and isinstance(st.targets[0], ast.Name) and '__i' in st.targets[0].id \
+                            and isinstance(st.value, ast.IfExp) and i + 1 < len(body) and isinstance(body[i + 1], ast.Assign) and len(body[i + 1].targets) == 1 \
+                            and isinstance(body[i + 1].targets[0], ast.Name) and isinstance(body[i + 1].value, ast.Name) and body[i + 1].value.id == st.targets[0].id \
+                            and not any(isinstance(n, ast.Name) and n.id == st.targets[0].id for r in body[i + 2:] for n in ast.walk(r)):
+                        body[i + 1].value = st.value
+                        del body[i]
+                        changed = True
+                        break
                     if isinstance(st, ast.Assign) and len(st.targets) == 1 and isinstance(st.targets[0], ast.Name) and isinstance(st.value, ast.Tuple) \
-                            and '__i' in st.targets[0].id:
+                            and ('__i' in st.targets[0].id or getattr(st, '_from_option', False)):
                         T = st.targets[0].id
                         uses = [n for r in body[i + 1:] for n in ast.walk(r) if isinstance(n, ast.Name) and n.id == T]
                         subs = [n for r in body[i + 1:] for n in ast.walk(r) if isinstance(n, ast.Subscript) and isinstance(n.value, ast.Name) and n.value.id == T
@@ -1261,6 +1283,8 @@ class Normaliser:
                                 and not any(isinstance(n, ast.Name) and n.id == x for n in ast.walk(st.value.test)) \
                                 and not any(isinstance(n, ast.Name) and n.id == x for r in body[i + 2:] for n in ast.walk(r)):
                             first = [] if U(st.value.body) == x else [ast.copy_location(ast.Assign(targets=[ast.Name(id=x, ctx=ast.Store())], value=st.value.body), st)]
+                            for f_ in first:
+                                f_._from_option = True          # a tuple bound here and read by constant index is taken apart (first rule)
                             new_if = ast.copy_location(ast.If(test=st.value.test, body=first + nxt.body, orelse=nxt.orelse), nxt)
                             body[i:i + 2] = [new_if]
                             changed = True
